@@ -182,7 +182,7 @@ class C05(Prop):
             near, a, b, sa, sb, cands = sample(rng)
             sa = [s for s in sa if _valid_clause(s)]
             sb = [s for s in sb if _valid_clause(s)]
-            how = "list" if (rng.random() < 0.25 or any("," in s for s in sa)) else rng.choice(["str", "str", "and"])
+            how = rng.choice(["list", "list", "gen"]) if (rng.random() < 0.25 or any("," in s for s in sa)) else rng.choice(["str", "str", "and"])
             # a second clause list with the same members up to Specifier equality: permuted, duplicated, respelled variants
             sa2 = list(sa)
             for c in a:
@@ -219,6 +219,8 @@ class C05(Prop):
         def mk(clauses, how="str", ov=None):
             if how == "list":
                 return SpecifierSet([Specifier(c) for c in clauses], prereleases=ov)
+            if how == "gen":          # any iterable of Specifier objects: here a one-shot generator
+                return SpecifierSet((Specifier(c) for c in clauses), prereleases=ov)
             if any("," in c for c in clauses):
                 raise G.Domain("a clause containing a comma cannot be given inside a string")
             if how == "and":
